@@ -34,8 +34,32 @@ void h_em_suspend(void) { REG_STATE(); MK_EMIT(e); gh_my_node = EM_NODE(e); gh_n
   SENT(!r && !gh_em_connected, "never connected: not suspended"); SENT(!r && gh_em_connected, "disconnected: not suspended"); }
 #endif
 #ifdef CV_HAS_em_resume
-void h_em_resume(void) { REG_STATE(); MK_EMIT(e); gh_my_node = 0; gh_node_own = OWN_NONE; em_resume(e);
+void h_em_resume(void) { REG_STATE(); MK_EMIT(e); gh_my_node = 0; gh_node_own = OWN_NONE; gh_rel_on = 0; gh_rel_queued = 0; em_resume(e);
   SENT(cv_exc_pending == 0, "value delivered"); SENT(cv_exc_pending != 0 && gh_sg_lock_ok, "alive but no value: canceled"); SENT(cv_exc_pending != 0 && !gh_sg_lock_ok, "state gone: canceled"); }
+#endif
+/* [with-that-value] - em_resume under the RELEASE ENVIRONMENT (audit item D4; replaces the free ghost gh_prev_released):
+ *  (1) a collector call with value in_v1 (any overload) releases this listener - state as the collector contract leaves it;
+ *  (2) the returned suspend point is released: in_queued == 0 - the listener runs inside the release (plain thread / co_await of the suspend
+ *      point); in_queued == 1 - ready queue active and the suspend point discarded: the listener is only queued (C05 contract of suspend_now);
+ *  (3) only then: the emitting coroutine runs on until its next suspension - it may call the collector again (any overload, any value) and the
+ *      object of an lvalue emission may end its life (signal.h: keeping it valid "can be achieved by discarding the return value");
+ *  (4) the listener runs: the REAL emitter::await_resume, enforced against its contract. */
+#if defined(CV_HAS_em_resume) && !defined(CV_C15_VOID)
+void h_em_resume_released(void) { REG_STATE(); EMIT *e = malloc(sizeof(EMIT)); __CPROVER_assume(e != 0); WP_PI(&e->_wk_state) = (void *)blk; WP_PTR(&e->_wk_state) = &blk->obj; gh_emit_obj = e;
+  gh_my_node = 0; gh_node_own = OWN_NONE;
+  int in_v1 = nondet_int(), in_v2 = nondet_int(), in_by_ref = nondet_bool(), in_queued = nondet_bool();     /* in_*: passed to the native replay (replay/c15_emit_in_coroutine.cpp) */
+  int more = 0, dead = 0;
+  cv_i32 *obj = malloc(sizeof(cv_i32)); __CPROVER_assume(obj != 0);                                       /* the caller's object of an lvalue emission */
+  c15_env_collector_call(in_v1, in_by_ref, obj);                                                          /* (1) */
+  gh_rel_on = 1; gh_rel_val = in_v1; gh_rel_queued = in_queued;                                           /* (2) */
+  if (in_queued) {                                                                                        /* (3) */
+    if (nondet_bool()) { more = 1; c15_env_collector_call(in_v2, nondet_bool(), obj); }
+    if (in_by_ref && nondet_bool()) { dead = 1; free(obj); } }
+  em_resume(e);                                                                                           /* (4) */
+  SENT(!in_queued && cv_exc_pending == 0 && !in_by_ref, "resumed inside the release: owned copy delivered"); SENT(!in_queued && cv_exc_pending == 0 && in_by_ref, "resumed inside the release: caller's object delivered");
+  SENT(in_queued && cv_exc_pending == 0 && !more && !dead, "queued, emitting coroutine did nothing more: value delivered");
+  SENT(in_queued && cv_exc_pending == 0 && more, "queued, collector called again before the listener ran"); SENT(in_queued && cv_exc_pending == 0 && dead, "queued, lvalue object dead before the listener ran");
+  SENT(cv_exc_pending != 0, "state died meanwhile: canceled"); }
 #endif
 #ifdef CV_HAS_awt_resume
 void h_awt_resume(void) { REG_STATE(); AWTC *a = (AWTC *)malloc(sizeof(AWTC)); __CPROVER_assume(a != 0); gh_awt_obj = a;
